@@ -62,17 +62,17 @@ Qed.
 Definition truth (s : st) : Prop :=
   forall x, 1 <= x -> x <> lockpg s -> dbc s x = file_h s x \/ (pageN s < x /\ dbc s x = 0).
 
-Record Mid (s0 s : st) : Prop := {
+Record Mid (k : bool) (s0 s : st) : Prop := {
   m_w : writeable s = true; m_mode : wal_mode s = false; m_lock : lockpg s = lockpg s0; m_lk1 : 1 <= lockpg s;
   m_pn : pageN s = pageN s0; m_tx : txid s = txid s0; m_chk : chk s = chk s0;
   m_cache : CacheOK s; m_lz : LockZero s; m_truth : truth s;
-  m_p1 : forall q, file_pg s 1 = Some q -> pg_wal q = false
+  m_p1 : k = true -> forall q, file_pg s 1 = Some q -> pg_wal q = false
 }.
 
 Lemma file_pg_h s p q : file_pg s p = Some q -> file_h s p = pg_h q.
 Proof. unfold file_h. intros ->. reflexivity. Qed.
 
-Lemma mid_write s0 s p q : Mid s0 s -> 1 <= p -> pg_wal q = false -> Mid s0 (snd (op_write_page s p q)) /\ fst (op_write_page s p q) = Done.
+Lemma mid_write k s0 s p q : Mid k s0 s -> 1 <= p -> (k = true -> pg_wal q = false) -> Mid k s0 (snd (op_write_page s p q)) /\ fst (op_write_page s p q) = Done.
 Proof.
   intros M Hp Hw. destruct M. unfold op_write_page. rewrite m_w0, m_mode0. cbn [negb fst snd]. split; [|reflexivity].
   set (sd := with_dirty s (insert_sorted p (dirty s))).
@@ -95,7 +95,7 @@ Proof.
     destruct (N.eqb_spec x p) as [->|Hne].
     + left. destruct (N.eqb_spec p (lockpg s)); [contradiction|reflexivity].
     + apply (m_truth0 x Hx Hnl).
-  - intros q1 Hq1. destruct (N.eq_dec p 1) as [->|Hne].
+  - intros Hk q1 Hq1. specialize (Hw Hk). destruct (N.eq_dec p 1) as [->|Hne].
     + pose proof (A10 1 ltac:(lia)) as H1. rewrite N.eqb_refl in H1.
       unfold file_pg in Hq1. unfold write_db_page in Hq1. cbn [dbfile set_page_chk with_file] in Hq1.
       change (N.to_nat (1 - 1)) with 0%nat in Hq1. destruct (dbfile sd) as [|x r]; cbn in Hq1; inversion Hq1; subst; assumption.
@@ -104,12 +104,12 @@ Proof.
       assert (N.to_nat (p - 1) <> 0%nat) as Hi by lia. destruct (N.to_nat (p - 1)) as [|i]; [congruence|].
       destruct (dbfile s) as [|x r] eqn:Ef; cbn in Hq1.
       * inversion Hq1; subst; reflexivity.
-      * apply m_p2. unfold file_pg. rewrite Ef. exact Hq1.
+      * apply (m_p2 Hk). unfold file_pg. rewrite Ef. exact Hq1.
 Qed.
 
 (* the file system fills a gap with zeros: only the file changes, and only at a page the cache knows nothing about *)
-Lemma mid_zero_fill s0 s p q : Mid s0 s -> pageN s < p -> dbc s p = 0 -> pg_wal q = false ->
-  Mid s0 (snd (op_zero_fill s p q)) /\ fst (op_zero_fill s p q) = Done.
+Lemma mid_zero_fill k s0 s p q : Mid k s0 s -> pageN s < p -> dbc s p = 0 -> (k = true -> pg_wal q = false) ->
+  Mid k s0 (snd (op_zero_fill s p q)) /\ fst (op_zero_fill s p q) = Done.
 Proof.
   intros M Hp Hz Hw. destruct M. unfold op_zero_fill. cbn [fst snd]. split; [|reflexivity].
   set (s' := with_file s (set_file (dbfile s) (N.to_nat (p - 1)) q)).
@@ -122,14 +122,14 @@ Proof.
   constructor; try assumption.
   - intros x Hx Hnl. change (lockpg s') with (lockpg s) in Hnl. change (pageN s') with (pageN s). change (dbc s' x) with (dbc s x).
     rewrite Hf by assumption. destruct (N.eqb_spec x p) as [->|Hne]; [right; split; assumption|apply (m_truth0 x Hx Hnl)].
-  - intros q1 Hq1. destruct (N.eq_dec p 1) as [->|Hne].
+  - intros Hk q1 Hq1. specialize (Hw Hk). destruct (N.eq_dec p 1) as [->|Hne].
     + unfold file_pg in Hq1. cbn [dbfile with_file s'] in Hq1. change (N.to_nat (1 - 1)) with 0%nat in Hq1.
       destruct (dbfile s) as [|x r]; cbn in Hq1; inversion Hq1; subst; assumption.
     + unfold file_pg in Hq1. cbn [dbfile with_file s'] in Hq1. change (N.to_nat (1 - 1)) with 0%nat in *.
       assert (N.to_nat (p - 1) <> 0%nat) as Hi by lia. destruct (N.to_nat (p - 1)) as [|i]; [congruence|].
       destruct (dbfile s) as [|x r] eqn:Ef; cbn in Hq1.
       * inversion Hq1; subst; reflexivity.
-      * apply m_p2. unfold file_pg. rewrite Ef. exact Hq1.
+      * apply (m_p2 Hk). unfold file_pg. rewrite Ef. exact Hq1.
 Qed.
 
 (* ---- the body of a transaction: the gaps, then the page writes ---- *)
@@ -140,7 +140,7 @@ Definition wr_ops (wr : list (N * pg)) : list op := map (fun kv => OWrite (fst k
 Inductive act := AWrite (p : N) (q : pg) | ACut.
 Definition act_ops (old : N) (acts : list act) : list op :=
   map (fun a => match a with AWrite p q => OWrite p q | ACut => OTruncate old end) acts.
-Definition act_ok (a : act) : Prop := match a with AWrite p q => 1 <= p /\ pg_wal q = false | ACut => True end.
+Definition act_ok (k : bool) (a : act) : Prop := match a with AWrite p q => 1 <= p /\ (k = true -> pg_wal q = false) | ACut => True end.
 
 Lemma run_group_app s a b : run_group s (a ++ b) =
   match run_group s a with (0, s') => run_group s' b | r => r end.
@@ -149,28 +149,28 @@ Proof.
   destruct (step s o) as [oc s1]. destruct oc; cbn [ocode]; try reflexivity. apply IH.
 Qed.
 
-Lemma run_writes s0 : forall wr s, Mid s0 s -> (forall p q, In (p, q) wr -> 1 <= p /\ pg_wal q = false) ->
-  exists s', run_group s (wr_ops wr) = (0, s') /\ Mid s0 s'.
+Lemma run_writes k s0 : forall wr s, Mid k s0 s -> (forall p q, In (p, q) wr -> 1 <= p /\ (k = true -> pg_wal q = false)) ->
+  exists s', run_group s (wr_ops wr) = (0, s') /\ Mid k s0 s'.
 Proof.
   induction wr as [|[p q] wr IH]; intros s M H; cbn [wr_ops map run_group].
   - exists s. auto.
   - cbn [step fst snd]. destruct (H p q (or_introl eq_refl)) as [Hp Hw].
-    destruct (mid_write s0 s p q M Hp Hw) as [M1 E1].
+    destruct (mid_write k s0 s p q M Hp Hw) as [M1 E1].
     destruct (op_write_page s p q) as [oc s1]. cbn [fst snd] in *. subst oc.
     apply IH; [assumption|]. intros p' q' Hin. apply H. right; assumption.
 Qed.
 
 (* the gaps lie beyond the old size; none is named twice *)
-Lemma run_zero_fills s0 : forall zf s, Mid s0 s -> NoDup (map fst zf) ->
-  (forall p q, In (p, q) zf -> pageN s0 < p /\ pg_wal q = false /\ dbc s p = 0) ->
-  exists s', run_group s (zf_ops zf) = (0, s') /\ Mid s0 s' /\ (forall x, dbc s' x = dbc s x).
+Lemma run_zero_fills k s0 : forall zf s, Mid k s0 s -> NoDup (map fst zf) ->
+  (forall p q, In (p, q) zf -> pageN s0 < p /\ (k = true -> pg_wal q = false) /\ dbc s p = 0) ->
+  exists s', run_group s (zf_ops zf) = (0, s') /\ Mid k s0 s' /\ (forall x, dbc s' x = dbc s x).
 Proof.
   induction zf as [|[p q] zf IH]; intros s M Hnd H; cbn [zf_ops map run_group].
   - exists s. auto.
   - cbn [step fst snd]. cbn [map fst] in Hnd. inversion Hnd as [|? ? Hnotin Hnd']; subst.
     destruct (H p q (or_introl eq_refl)) as [Hp [Hw Hz]].
-    assert (pageN s < p) as Hp' by (rewrite (m_pn s0 s M); exact Hp).
-    destruct (mid_zero_fill s0 s p q M Hp' Hz Hw) as [M1 E1].
+    assert (pageN s < p) as Hp' by (rewrite (m_pn k s0 s M); exact Hp).
+    destruct (mid_zero_fill k s0 s p q M Hp' Hz Hw) as [M1 E1].
     assert (Hd1 : forall x, dbc (snd (op_zero_fill s p q)) x = dbc s x) by reflexivity.
     destruct (op_zero_fill s p q) as [oc s1]. cbn [fst snd] in *. subst oc.
     destruct (IH s1 M1 Hnd') as [s' [E [M' Hd]]].
@@ -180,17 +180,18 @@ Qed.
 
 (* ---- the commit ---- *)
 Lemma clear_after_commit_fields : forall n sx i,
-  writeable (clear_after_commit sx n i) = writeable sx /\ lockpg (clear_after_commit sx n i) = lockpg sx.
+  writeable (clear_after_commit sx n i) = writeable sx /\ lockpg (clear_after_commit sx n i) = lockpg sx /\
+  wal_chk (clear_after_commit sx n i) = wal_chk sx.
 Proof.
   induction n as [|n IH]; intros sx i; cbn [clear_after_commit]; [auto|].
   destruct (i <? lenN (chk_pages sx)); [|auto].
-  destruct (IH (if i + 1 =? lockpg sx then sx else set_page_chk sx (i + 1) 0) (i + 1)) as [A B]. rewrite A, B.
+  destruct (IH (if i + 1 =? lockpg sx then sx else set_page_chk sx (i + 1) 0) (i + 1)) as [A [B C]]. rewrite A, B, C.
   destruct (i + 1 =? lockpg sx); auto.
 Qed.
 
 Lemma commit_journal_fields s c s' : op_commit_journal s c = (Done, s') ->
   writeable s' = true /\ lockpg s' = lockpg s /\
-  (wal_mode s' = true -> exists q, file_pg s 1 = Some q /\ pg_wal q = true).
+  (wal_mode s' = true -> exists q, file_pg s 1 = Some q /\ pg_wal q = true) /\ wal_chk s' = [].
 Proof.
   intros H. unfold op_commit_journal in H. destruct (writeable s) eqn:Ew; cbn [negb] in H; [|discriminate].
   set (s0 := with_wal s [] (wal_latest s) (wal_file s)) in *.
@@ -198,13 +199,14 @@ Proof.
   pose proof (journal_pages_samenc c _ _ _ _ Ej) as HSj.
   destruct (journal_pages_spec c _ s0 _ _ Ej) as [_ A2].
   set (s1 := clear_after_commit sj (length (chk_pages sj)) c) in *.
-  destruct (clear_after_commit_fields (length (chk_pages sj)) sj c) as [F1 F2]. fold s1 in F1, F2.
+  destruct (clear_after_commit_fields (length (chk_pages sj)) sj c) as [F1 [F2 F3]]. fold s1 in F1, F2, F3.
   pose proof (checksum_same s1 c []) as HS.
   destruct (checksum s1 c []) as [[post|] s2]; [|discriminate]. cbn [snd] in HS.
   inversion H; subst s'. clear H.
-  destruct HS as [W2 [L2 _]]. destruct HSj as [Wj [Lj _]].
-  cbn [writeable lockpg wal_mode with_dirty with_pos].
+  destruct HS as [W2 [L2 [_ [_ [_ [_ [K2 _]]]]]]]. destruct HSj as [Wj [Lj [_ [_ [_ [Kj _]]]]]].
+  cbn [writeable lockpg wal_mode wal_chk with_dirty with_pos].
   split; [rewrite W2, F1, Wj; exact Ew|]. split; [rewrite L2, F2, Lj; reflexivity|].
+  split; [|rewrite K2, F3, Kj; reflexivity].
   destruct (alookup 1 pages) as [q|] eqn:Ea; [|discriminate].
   intros Hw. exists q. split; [|exact Hw]. apply (A2 1 q). apply alookup_in. exact Ea.
 Qed.
@@ -219,9 +221,9 @@ Record J (s : st) : Prop := {
   j_p1 : forall q, file_pg s 1 = Some q -> pg_wal q = false
 }.
 
-Lemma j_mid s : J s -> Mid s s.
+Lemma j_mid k s : J s -> Mid k s s.
 Proof.
-  intros [A B C D E F G H I]. constructor; try assumption; try reflexivity.
+  intros [A B C D E F G H I]. constructor; try assumption; try reflexivity; [|intros _; assumption].
   intros x Hx Hnl. destruct (N.le_gt_cases x (pageN s)) as [Hle|Hgt]; [left; apply F; [lia|assumption]|right; split; [lia|apply G; lia]].
 Qed.
 
@@ -230,12 +232,24 @@ Proof.
   intros H. unfold scratch. f_equal. f_equal. apply map_ext_in. intros p Hp. apply seqN_in in Hp. apply H. lia.
 Qed.
 
-Lemma mid_commit s0 s c s' : Mid s0 s -> op_commit_journal s c = (Done, s') -> J s' /\ txid s' = txid s0 + 1 /\ pageN s' = c.
+(* between transactions, whatever the journal mode: the per-page cache is the database file's *)
+Record JB (s : st) : Prop := {
+  b_w : writeable s = true; b_lk1 : 1 <= lockpg s; b_cache : CacheOK s; b_lz : LockZero s;
+  b_truth : forall p, 1 <= p <= pageN s -> p <> lockpg s -> dbc s p = file_h s p;
+  b_tail : forall p, pageN s < p -> dbc s p = 0;
+  b_chk : txid s <> 0 -> chk s = scratch (fun p => if p =? lockpg s then 0 else file_h s p) (pageN s)
+}.
+Lemma jb_j s : JB s -> wal_mode s = false -> (forall q, file_pg s 1 = Some q -> pg_wal q = false) -> J s.
+Proof. intros [A B C D E F G] Hm Hp. constructor; assumption. Qed.
+
+Lemma mid_commit k s0 s c s' : Mid k s0 s -> op_commit_journal s c = (Done, s') ->
+  JB s' /\ txid s' = txid s0 + 1 /\ pageN s' = c /\
+  (k = true -> wal_mode s' = false /\ forall q, file_pg s' 1 = Some q -> pg_wal q = false).
 Proof.
   intros M H. destruct M.
   destruct (commit_journal_checksum s c s' m_cache0 m_lz0 m_lk2 H) as [C1 [C2 [C3 [C4 [C5 [C6 [C7 C8]]]]]]].
   destruct (commit_journal_file s c s' H) as [f [_ [_ [_ [_ [_ [_ [_ [_ Ef]]]]]]]]].
-  destruct (commit_journal_fields s c s' H) as [F1 [F2 F3]].
+  destruct (commit_journal_fields s c s' H) as [F1 [F2 [F3 _]]].
   assert (Hfh : forall p, file_h s' p = file_h s p) by (intros p; unfold file_h, file_pg; rewrite Ef; reflexivity).
   assert (Hjc : forall p, 1 <= p -> p <> lockpg s -> jc s p = file_h s p).
   { intros p Hp Hnl. unfold jc, unwritten. fold (dbc s p).
@@ -243,10 +257,12 @@ Proof.
     - destruct ((pageN s <? p) && (dbc s p =? 0)) eqn:Eu; [reflexivity|exact E].
     - assert ((pageN s <? p) && (dbc s p =? 0) = true) as -> ; [|reflexivity].
       apply andb_true_iff. split; [apply N.ltb_lt; assumption|rewrite Hz; reflexivity]. }
-  split; [|split; [congruence|assumption]].
+  split; [|split; [congruence|split; [assumption|]]].
+  2:{ intros Hk. split.
+      - destruct (wal_mode s') eqn:Ew; [|reflexivity]. destruct (F3 eq_refl) as [q [Hq Hw]]. rewrite (m_p2 Hk q Hq) in Hw. discriminate.
+      - intros q Hq. apply (m_p2 Hk). unfold file_pg in *. rewrite Ef in Hq. exact Hq. }
   constructor.
   - exact F1.
-  - destruct (wal_mode s') eqn:Ew; [|reflexivity]. destruct (F3 eq_refl) as [q [Hq Hw]]. rewrite (m_p2 q Hq) in Hw. discriminate.
   - rewrite F2. exact m_lk2.
   - exact C5.
   - exact C6.
@@ -254,7 +270,6 @@ Proof.
   - intros p Hp. rewrite C3 in Hp. apply C7. assumption.
   - intros _. rewrite C1, C3, F2. apply scratch_ext. intros p Hp.
     destruct (N.eqb_spec p (lockpg s)) as [_|Hnl]; [reflexivity|]. rewrite Hfh. apply Hjc; [lia|assumption].
-  - intros q Hq. apply m_p2. unfold file_pg in *. rewrite Ef in Hq. exact Hq.
 Qed.
 
 (* ---- the truncate SQLite issues after a shrinking commit ---- *)
@@ -288,7 +303,7 @@ Proof.
 Qed.
 
 (* inside a transaction: the cut back to the old size when SQLite rolls back after a spill that had grown the file *)
-Lemma mid_truncate s0 s s' : Mid s0 s -> op_truncate s (pageN s) = (Done, s') -> Mid s0 s'.
+Lemma mid_truncate k s0 s s' : Mid k s0 s -> op_truncate s (pageN s) = (Done, s') -> Mid k s0 s'.
 Proof.
   intros M H. destruct M. unfold op_truncate in H. rewrite N.eqb_refl in H. cbn [negb] in H. inversion H; subst s'. clear H.
   unfold truncate_db, reset_after.
@@ -317,20 +332,20 @@ Proof.
     destruct (N.ltb_spec (pageN s) x) as [Hgt|Hle].
     + right. split; [assumption|reflexivity].
     + destruct (N.leb_spec x (pageN s)); [|lia]. destruct (m_truth0 x Hx Hnl) as [E|[Hgt _]]; [left; exact E|lia].
-  - intros q Hq. apply m_p2. unfold file_pg in *. rewrite F2 in Hq. change (dbfile sf) with (firstn (N.to_nat (pageN s)) (dbfile s)) in Hq.
+  - intros Hk q Hq. apply (m_p2 Hk). unfold file_pg in *. rewrite F2 in Hq. change (dbfile sf) with (firstn (N.to_nat (pageN s)) (dbfile s)) in Hq.
     change (N.to_nat (1 - 1)) with 0%nat in *. destruct (N.to_nat (pageN s)); [discriminate|]. destruct (dbfile s); [discriminate|exact Hq].
 Qed.
 
-Lemma run_acts s0 : forall acts s s', Mid s0 s -> Forall act_ok acts ->
-  run_group s (act_ops (pageN s0) acts) = (0, s') -> Mid s0 s'.
+Lemma run_acts k s0 : forall acts s s', Mid k s0 s -> Forall (act_ok k) acts ->
+  run_group s (act_ops (pageN s0) acts) = (0, s') -> Mid k s0 s'.
 Proof.
   induction acts as [|a acts IH]; intros s s' M Hok H; cbn [act_ops map run_group] in H.
   - inversion H; subst. exact M.
   - inversion Hok as [|? ? Ha Hok']; subst. destruct a as [p q|]; cbn [step] in H.
-    + destruct Ha as [Hp Hw]. destruct (mid_write s0 s p q M Hp Hw) as [M1 E1].
+    + destruct Ha as [Hp Hw]. destruct (mid_write k s0 s p q M Hp Hw) as [M1 E1].
       destruct (op_write_page s p q) as [oc s1]. cbn [fst snd] in *. subst oc. apply (IH s1 s' M1 Hok' H).
     + destruct (op_truncate s (pageN s0)) as [oc s1] eqn:Et. destruct oc; cbn [ocode] in H; try (inversion H; fail).
-      rewrite <- (m_pn s0 s M) in Et. apply (IH s1 s' (mid_truncate s0 s s1 M Et) Hok' H).
+      rewrite <- (m_pn k s0 s M) in Et. apply (IH s1 s' (mid_truncate k s0 s s1 M Et) Hok' H).
 Qed.
 
 Lemma j_truncate s n s' : J s -> op_truncate s n = (Done, s') -> J s' /\ txid s' = txid s /\ pageN s' = pageN s.
@@ -380,7 +395,7 @@ Definition hops (s : st) (h : hstep) : list op :=
    size and are distinct; page numbers start at 1; the database stays in rollback-journal mode *)
 Definition wf_step (s : st) (h : hstep) : Prop :=
   match h with
-  | HTx zf acts c => NoDup (map fst zf) /\ (forall p q, In (p, q) zf -> pageN s < p /\ pg_wal q = false) /\ Forall act_ok acts
+  | HTx zf acts c => NoDup (map fst zf) /\ (forall p q, In (p, q) zf -> pageN s < p /\ pg_wal q = false) /\ Forall (act_ok true) acts
   | HTrunc _ => True
   end.
 Fixpoint run_hsteps (s : st) (hs : list hstep) : option st :=
@@ -403,11 +418,11 @@ Lemma j_step s h s' : J s -> wf_step s h -> run_group s (hops s h) = (0, s') -> 
 Proof.
   intros HJ Hwf H. destruct h as [zf acts c|n]; cbn [hops wf_step] in *.
   - destruct Hwf as [Hnd [Hzf Hacts]].
-    destruct (run_zero_fills s zf s (j_mid s HJ) Hnd) as [s1 [E1 [M1 _]]].
-    { intros p q Hin. destruct (Hzf p q Hin) as [A B]. split; [assumption|]. split; [assumption|]. apply (j_tail s HJ). assumption. }
+    destruct (run_zero_fills true s zf s (j_mid true s HJ) Hnd) as [s1 [E1 [M1 _]]].
+    { intros p q Hin. destruct (Hzf p q Hin) as [A B]. split; [assumption|]. split; [intros _; assumption|]. apply (j_tail s HJ). assumption. }
     rewrite run_group_app, E1 in H. rewrite run_group_app in H.
     destruct (run_group s1 (act_ops (pageN s) acts)) as [code s2] eqn:E2. destruct code; [|inversion H].
-    pose proof (run_acts s acts s1 s2 M1 Hacts E2) as M2.
+    pose proof (run_acts true s acts s1 s2 M1 Hacts E2) as M2.
     apply run_group_one in H. cbn [step] in H.
     destruct (writeable s2 && (pageN s2 =? 0) && match dbfile s2 with [] => true | _ :: _ => false end) eqn:Einv.
     + (* nothing was written and there is no database: the journal is invalidated, nothing is published *)
@@ -428,13 +443,36 @@ Proof.
         destruct (m_truth0 p ltac:(change (pageN (with_dirty s2 [])) with (pageN s2) in Hp; lia) Hnl) as [E|[_ E]]; [rewrite E; apply Hfh|exact E].
       * cbn [txid chk pageN lockpg with_dirty]. intros Ht. rewrite m_tx0 in Ht. rewrite m_chk0, (j_chk0 Ht), Ep, <- m_pn0, Ep. reflexivity.
       * intros q Hq. unfold file_pg in Hq. cbn [dbfile with_dirty] in Hq. rewrite Edb in Hq. destruct (N.to_nat (1 - 1)); discriminate.
-    + destruct (mid_commit s s2 c s' M2 H) as [HJ' _]. split; [exact HJ'|].
-      destruct (commit_journal_fields s2 c s' H) as [_ [F _]]. rewrite F. apply (m_lock s s2 M2).
+    + destruct (mid_commit true s s2 c s' M2 H) as [HB [_ [_ Hs]]]. destruct (Hs eq_refl) as [Hm Hp1]. split; [exact (jb_j s' HB Hm Hp1)|].
+      destruct (commit_journal_fields s2 c s' H) as [_ [F _]]. rewrite F. apply (m_lock true s s2 M2).
   - apply run_group_one in H. cbn [step] in H. destruct (j_truncate s n s' HJ H) as [HJ' _]. split; [exact HJ'|].
     unfold op_truncate in H. destruct (negb (n =? pageN s)); [discriminate|]. inversion H; subst.
     unfold truncate_db, reset_after.
     destruct (clear_from_spec (length (chk_pages (with_file s (firstn (N.to_nat n) (dbfile s))))) (with_file s (firstn (N.to_nat n) (dbfile s))) n ltac:(lia) (j_cache s HJ) (j_lz s HJ) (j_lk1 s HJ)) as [_ [_ [F _]]].
     exact F.
+Qed.
+
+(* a rollback-journal transaction whose pages may carry anything - in particular the one that rewrites page 1 with the WAL
+   versions and so takes the database into WAL mode *)
+Definition wf_tx_any (s : st) (zf : list (N * pg)) (acts : list act) : Prop :=
+  NoDup (map fst zf) /\ (forall p q, In (p, q) zf -> pageN s < p) /\ Forall (act_ok false) acts.
+Lemma tx_step_any s zf acts c s' : J s -> wf_tx_any s zf acts -> run_group s (hops s (HTx zf acts c)) = (0, s') ->
+  wal_mode s' = true ->
+  JB s' /\ wal_chk s' = [] /\ txid s' = txid s + 1 /\ pageN s' = c /\ lockpg s' = lockpg s.
+Proof.
+  intros HJ [Hnd [Hzf Hacts]] H Hm. cbn [hops] in H.
+  destruct (run_zero_fills false s zf s (j_mid false s HJ) Hnd) as [s1 [E1 [M1 _]]].
+  { intros p q Hin. split; [apply (Hzf p q Hin)|]. split; [discriminate|]. apply (j_tail s HJ). apply (Hzf p q Hin). }
+  rewrite run_group_app, E1 in H. rewrite run_group_app in H.
+  destruct (run_group s1 (act_ops (pageN s) acts)) as [code s2] eqn:E2. destruct code; [|inversion H].
+  pose proof (run_acts false s acts s1 s2 M1 Hacts E2) as M2.
+  apply run_group_one in H. cbn [step] in H.
+  destruct (writeable s2 && (pageN s2 =? 0) && match dbfile s2 with [] => true | _ :: _ => false end).
+  - unfold op_invalidate_journal in H. inversion H; subst s'. cbn [wal_mode with_dirty] in Hm.
+    rewrite (m_mode false s s2 M2) in Hm. discriminate.
+  - destruct (mid_commit false s s2 c s' M2 H) as [HB [Et [Ep _]]].
+    destruct (commit_journal_fields s2 c s' H) as [_ [F [_ K]]].
+    split; [exact HB|]. split; [exact K|]. split; [exact Et|]. split; [exact Ep|]. rewrite F. apply (m_lock false s s2 M2).
 Qed.
 
 Theorem journal_history_invariant : forall hs s s', J s -> wf_hist s hs -> run_hsteps s hs = Some s' -> J s' /\ lockpg s' = lockpg s.
